@@ -27,7 +27,7 @@ def one(path):
         for i in range(1, 21):
             pid = f"C{i:02d}"
             env = dict(os.environ, JV_EVIDENCE_DIR=os.path.join(S, ".ev"), JV_REPO=S)
-            r = subprocess.run(["/venv/bin/python", "/verif/bin/check", pid, "--repo", S], env=env, capture_output=True, text=True, timeout=900)
+            r = subprocess.run(["/venv/bin/python", os.path.join(VSNAP, "bin/check"), pid, "--repo", S], env=env, capture_output=True, text=True, timeout=900)
             if r.returncode != 0:
                 lines = [l.strip()[:260] for l in r.stdout.splitlines() if "instance=" in l or l.startswith("ANALYSIS-ERROR") or "found:" in l][:3]
                 bad[pid] = (r.returncode, lines)
@@ -35,7 +35,14 @@ def one(path):
     finally:
         shutil.rmtree(S, ignore_errors=True)
 
+VSNAP = "/verif"
+
 if __name__ == "__main__":
+    # run from a frozen copy of the machinery so that edits made while the evaluation runs cannot disturb it
+    VSNAP = tempfile.mkdtemp(prefix="jvsnap.")
+    for d in ("jv", "bin"):
+        shutil.copytree(os.path.join("/verif", d), os.path.join(VSNAP, d))
+    shutil.copy("/verif/known_findings.json", VSNAP)
     paths = sys.argv[1:] or sorted(p for p in glob.glob("/tmp/ref/out/*/r*") if os.path.isdir(p))
     with ThreadPoolExecutor(8) as ex:
         for tag, st, bad in ex.map(one, paths):
@@ -44,3 +51,4 @@ if __name__ == "__main__":
                 print("   ", pid, "exit", rc)
                 for l in lines:
                     print("       ", l)
+    shutil.rmtree(VSNAP, ignore_errors=True)
